@@ -12,6 +12,7 @@ import (
 	"time"
 
 	"verif/harness/internal/core"
+	"verif/harness/internal/sched"
 )
 
 type scn struct {
@@ -85,6 +86,8 @@ func Check(env *core.Env, rep *core.Report) *core.Result {
 			note("Cancel_"+c, r, "negative control (pinned doneCh hand-shake): "+r.Violated+" violated as required")
 		})
 	}
+	// Scheduler.Cancel while an included pipeline is being scheduled (fake runner that records what it is handed)
+	run(func() { sched.NestedCancel(env, rep, map[bool]int{false: 5, true: 100}[thorough]) })
 	// two runs of tasks with the same name (outside the model's numbering of runs)
 	sameName := 0
 	run(func() { sameName = checkSameName(env, rep) })
